@@ -278,6 +278,12 @@ def route(rc):
         rc.fail(q, q.node, "interventional branches must query with the do-values as evidence", construct="do branches")
 
 
+
+@rule("C13.defuse", "anchored files: every parameter is read, no value is computed and dropped (generic def-use detectors, triaged hit list)", floor=2)
+def defuse(rc):
+    from . import shared as _sh
+    _sh.defuse_rule(rc, _sh.anchor_files("C13"))
+
 MUTANTS = [
     dict(kind="break", name="do-removes-outgoing", file=DAGF, expect="C13.surgery",
          old="            parents = list(dag.predecessors(node))\n            for parent in parents:\n                dag.remove_edge(parent, node)",
